@@ -22,13 +22,28 @@ Section C02.
     reflexivity.
   Qed.
 
-  Lemma properties3d_features (w : world) fs pos depth ps t :
-    properties3d (with_features w fs) pos depth ps t =
-    (let q := mk_query w pos depth in
-     let '(out0, regs) := init_from w (q_g q) depth ps [] in
-     if existsb (fun f => ft_cov_err f q || (ft_covers f q && existsb (fun pe => ft_paint_err f q (fst pe)) regs)) fs
-     then Err Throw else Ok (eval_features fs q regs (out0, t))).
-  Proof. unfold properties3d. rewrite init_from_features. reflexivity. Qed.
+  Lemma properties_at_features (w : world) fs q wt ps t :
+    properties_at (with_features w fs) q wt ps t =
+    (let '(out0, regs) := init_from w (q_g q) (q_depth q) ps [] in
+     if existsb (fun f => ft_cov_err f q || (ft_covers f q && existsb (fun pe => ft_paint_err f q wt (fst pe)) regs)) fs
+     then Err Throw else Ok (eval_features fs q wt regs (out0, t))).
+  Proof. unfold properties_at. rewrite init_from_features. reflexivity. Qed.
+
+  Lemma properties_at_delete (w : world) fs1 f fs2 q wt ps t :
+    ft_covers f q = false -> ft_cov_err f q = false ->
+    properties_at (with_features w (fs1 ++ f :: fs2)) q wt ps t = properties_at (with_features w (fs1 ++ fs2)) q wt ps t.
+  Proof.
+    intros C E. rewrite !properties_at_features.
+    destruct (init_from w _ _ ps []) as [out0 regs].
+    rewrite !existsb_app. cbn [existsb]. rewrite C, E. cbn [orb andb].
+    rewrite eval_delete by exact C. reflexivity.
+  Qed.
+
+  (** the temperature the water content models call back for does not see the deleted feature either *)
+  Lemma world_temperature_delete (w : world) fs1 f fs2 q :
+    ft_covers f q = false -> ft_cov_err f q = false ->
+    world_temperature (with_features w (fs1 ++ f :: fs2)) q = world_temperature (with_features w (fs1 ++ fs2)) q.
+  Proof. intros C E. unfold world_temperature. rewrite (properties_at_delete w fs1 f fs2 q _ _ _ C E). reflexivity. Qed.
 
   (** a feature that does not contain the point has no influence: deleting it changes nothing *)
   Theorem C02_delete : forall (w : world) fs1 f fs2 pos depth ps t,
@@ -36,23 +51,24 @@ Section C02.
     properties3d (with_features w (fs1 ++ f :: fs2)) pos depth ps t =
     properties3d (with_features w (fs1 ++ fs2)) pos depth ps t.
   Proof.
-    intros w fs1 f fs2 pos depth ps t C E. rewrite !properties3d_features. cbn zeta.
-    destruct (init_from w _ depth ps []) as [out0 regs].
-    rewrite !existsb_app. cbn [existsb]. rewrite C, E. cbn [orb andb].
-    rewrite eval_delete by exact C. reflexivity.
+    intros w fs1 f fs2 pos depth ps t C E. unfold properties3d.
+    change (mk_query (with_features w (fs1 ++ f :: fs2)) pos depth) with (mk_query w pos depth).
+    change (mk_query (with_features w (fs1 ++ fs2)) pos depth) with (mk_query w pos depth).
+    rewrite (world_temperature_delete w fs1 f fs2 _ C E).
+    apply properties_at_delete; assumption.
   Qed.
 
   (** the answer is the fold over the covering features only, in file order; hence any two feature
       lists with the same sub-list of covering features (any permutation / deletion of the others)
       give the same values *)
-  Theorem C02_covering_fold : forall fs (q : @query F) regs st,
-    eval_features fs q regs st = eval_features (filter (fun f => ft_covers f q) fs) q regs st.
+  Theorem C02_covering_fold : forall fs (q : @query F) wt regs st,
+    eval_features fs q wt regs st = eval_features (filter (fun f => ft_covers f q) fs) q wt regs st.
   Proof. exact eval_filter. Qed.
 
-  Theorem C02_permute : forall fs fs' (q : @query F) regs st,
+  Theorem C02_permute : forall fs fs' (q : @query F) wt regs st,
     filter (fun f => ft_covers f q) fs = filter (fun f => ft_covers f q) fs' ->
-    eval_features fs q regs st = eval_features fs' q regs st.
-  Proof. intros fs fs' q regs st H. rewrite (eval_filter fs), (eval_filter fs'), H. reflexivity. Qed.
+    eval_features fs q wt regs st = eval_features fs' q wt regs st.
+  Proof. intros fs fs' q wt regs st H. rewrite (eval_filter fs), (eval_filter fs'), H. reflexivity. Qed.
 
   (** the reported tag is that of the last feature containing the point, -1 if there is none *)
   Theorem C02_tag_last : forall (w : world) pos depth ps t r t' i,
@@ -70,7 +86,7 @@ Section C02.
     assert (Hi : i < length ps) by (apply nth_error_Some; congruence).
     unfold offsets. rewrite (offsets_from_nth ps 0 i Hi). cbn [Nat.add].
     change 1 with (width PTag). rewrite (B i PTag Hp).
-    unfold block_value. cbn [registered]. rewrite (block_eval_tag _ _ WT). reflexivity.
+    unfold block_value. cbn [registered]. rewrite (block_eval_tag _ _ _ WT). reflexivity.
   Qed.
 
   (** ** operations (feature_utilities.h) *)
@@ -84,18 +100,18 @@ Section C02.
 
   (** uniform composition inside its range: a listed composition gets [op old fraction]; an unlisted
       one is cleared by "replace" and left untouched by every other operation *)
-  Theorem C02_composition_listed : forall tape sph (q : @query F) mn mx o comps fracs c f old t,
+  Theorem C02_composition_listed : forall tape sph (q : @query F) wt mn mx o comps fracs c f old t,
     in_range (ds_min mn) (ds_max mx) (q_depth q) = true ->
     in_range (dsl sph q mn) (dsl sph q mx) (q_depth q) = true ->
     find_comp comps fracs c = Some f ->
-    comp_eval tape sph q (CUniform mn mx o comps fracs) c (old, t) = (apply_op o old f, t).
+    comp_eval tape sph q wt (CUniform mn mx o comps fracs) c (old, t) = (apply_op o old f, t).
   Proof. intros * H1 H2 H3. cbn [comp_eval]. now rewrite H1, H2, H3. Qed.
 
-  Theorem C02_composition_unlisted : forall tape sph (q : @query F) mn mx o comps fracs c old t,
+  Theorem C02_composition_unlisted : forall tape sph (q : @query F) wt mn mx o comps fracs c old t,
     in_range (ds_min mn) (ds_max mx) (q_depth q) = true ->
     in_range (dsl sph q mn) (dsl sph q mx) (q_depth q) = true ->
     find_comp comps fracs c = None ->
-    comp_eval tape sph q (CUniform mn mx o comps fracs) c (old, t) =
+    comp_eval tape sph q wt (CUniform mn mx o comps fracs) c (old, t) =
     (match o with OReplace => f0 | _ => old end, t).
   Proof. intros * H1 H2 H3. cbn [comp_eval]. now rewrite H1, H2, H3. Qed.
 
@@ -106,10 +122,10 @@ Section C02.
   Proof. intros. rewrite fold_left_app. reflexivity. Qed.
 
   (** a feature without models of a kind leaves temperature, composition and grains as they were *)
-  Theorem C02_no_models : forall g tape sph (a : @area_feature F) (q : @query F) t blk c k,
-    (af_temp a = [] -> length blk = 1 -> fst (area_paint g tape sph a q PTemp t blk) = blk) /\
-    (af_comp a = [] -> length blk = 1 -> fst (area_paint g tape sph a q (PComp c) t blk) = blk) /\
-    (af_grains a = [] -> fst (area_paint g tape sph a q (PGrains c k) t blk) = blk).
+  Theorem C02_no_models : forall g tape sph (a : @area_feature F) (q : @query F) wt t blk c k,
+    (af_temp a = [] -> length blk = 1 -> fst (area_paint g tape sph a q wt PTemp t blk) = blk) /\
+    (af_comp a = [] -> length blk = 1 -> fst (area_paint g tape sph a q wt (PComp c) t blk) = blk) /\
+    (af_grains a = [] -> fst (area_paint g tape sph a q wt (PGrains c k) t blk) = blk).
   Proof.
     intros. repeat split; intros H; unfold area_paint; rewrite H; cbn [fold_left fst]; try reflexivity;
       intros L; destruct blk as [|x [|y l]]; try discriminate; reflexivity.
